@@ -223,7 +223,17 @@ func init() {
 					for i := 0; i < n; i++ {
 						star.Children = append(star.Children, &rm.Node{Name: fmt.Sprintf("s%d", i), HasLen: true, Len: float64(i) * 0.1})
 					}
-					for _, m := range []*rm.Tree{{Root: cat}, {Root: star}} {
+					// names / comments whose inner runs of blanks lie across the 4096-byte boundaries of buffered readers
+					wide := &rm.Node{}
+					for i := 0; i < 5; i++ {
+						pad := 4096*(i+1) - 20 - len((&rm.Tree{Root: wide}).Newick())
+						if pad < 1 {
+							pad = 1
+						}
+						wide.Children = append(wide.Children, &rm.Node{Name: "p" + strings.Repeat("x", pad) + strings.Repeat(" ", 64) + "q" + fmt.Sprint(i), HasLen: true, Len: 1,
+							NodeCom: []string{"c" + strings.Repeat(" ", 4096) + "d"}})
+					}
+					for _, m := range []*rm.Tree{{Root: cat}, {Root: star}, {Root: wide}} {
 						m := m
 						c.Count("large_instances", 1)
 						c.Check(c01case{Model: "large"}, func() (string, string) { return c01check(m, 0) })
